@@ -98,9 +98,46 @@ def pattern_cases(R, tier):
             yield spec, tuple(ka), tuple(kb), 'wrapper-history'
 
 
+def noncommutative(R, tier):
+    """coefficients that do not commute (sympy symbols with commutative=False): every term is coefficient-of-a x coefficient-of-b in
+    that order, also when both operands are the same object"""
+    import sympy
+    from kingdon import MultiVector
+    rng = R.rng
+    for it in range(6 if tier == 'quick' else 60):
+        d = rng.choice((2, 3))
+        spec = {'sig': [rng.choice((1, -1, 0)) for _ in range(d)]}
+        alg = algs.make_impl(spec)
+        canon = [int(k) for k in alg.canon2bin.values()]
+        ka = rng.sample(canon, rng.randint(2, min(4, len(canon))))
+        A_ = [sympy.Symbol('A%d' % i, commutative=False) for i in range(len(ka))]
+        x = MultiVector.fromkeysvalues(alg, tuple(ka), list(A_))
+        xc = MultiVector.fromkeysvalues(alg, tuple(ka), list(A_))          # an equal copy (another object)
+        for label, a_, b_ in (('x * x (one object)', x, x), ('x * copy of x', x, xc)):
+            R.count('noncommutative'); R.case(('nc', algs.describe(spec), tuple(ka), label), True)
+            want = {}
+            for ka_, va in zip(a_.keys(), a_.values()):
+                for kb_, vb in zip(b_.keys(), b_.values()):
+                    sgn = alg.signs[ka_, kb_]
+                    if sgn:
+                        want[ka_ ^ kb_] = want.get(ka_ ^ kb_, 0) + sgn * va * vb
+            try:
+                r = a_ * b_
+                got = {int(k): sympy.expand(v) for k, v in zip(r.keys(), r.values())}
+            except Exception as e:  # noqa
+                got = f'{type(e).__name__}: {e}'[:100]
+            wantx = {int(k): sympy.expand(v) for k, v in want.items() if sympy.expand(v) != 0}
+            if isinstance(got, str) or {k: v for k, v in got.items() if v != 0} != wantx:
+                R.violation({'clause': 'gp', 'basis': algs.kind(spec), 'coefficients': 'noncommutative'},
+                            {'algebra': spec, 'keys': ka, 'form': label, 'noncommutative': True},
+                            f'{label} with non-commuting coefficients {A_} on blades {ka} in Algebra({algs.describe(spec)}) = {got}, the bilinear extension (coefficient of the left '
+                            f'operand first) is {wantx}')
+
+
 def run(R, tier):
     warnings.filterwarnings('ignore')
     rng = R.rng
+    noncommutative(R, tier)
     pool = algs.AlgPool()
     cache = {}
     cases = []
@@ -150,6 +187,10 @@ def run(R, tier):
 
 
 def replay(R, rec):
+    if (rec.get('replay') or {}).get('noncommutative'):
+        R2 = kv.Run(rec['property'], rec.get('tier', 'quick'), int(rec.get('seed', 1))); R2.findings = []
+        noncommutative(R2, R2.tier)
+        return not getattr(R2, 'all_failures', [])
     warnings.filterwarnings('ignore')
     r = rec['replay']
     alg = algs.make_impl(r['algebra'])
